@@ -8,6 +8,7 @@ CONSTANTS
   MayThrow = TRUE
   Spurious = TRUE
   AnyOrder = FALSE
+  StopUnlocked = FALSE
 SPECIFICATION Spec
 INVARIANTS AtMostOnce ExactlyOnceOnReturn ChunksTile TnumBelowSize TnumExclusive ReturnAfterAllDone RethrowIffAsked
   MutexExclusive WaitingConsistent QueueFresh NoStuck WorkersGoneWhenDead
